@@ -8,6 +8,20 @@ HERE = os.path.dirname(os.path.dirname(os.path.abspath(__file__)))
 ALL = ["C%02d" % i for i in range(1, 21)]
 
 CHECKS = {
+ "C05": dict(
+  category="exploration",
+  text="Invariant at a hook: a post-condition wrapper on the real glue.process_ir walks every integer Expression node of every "
+       "IR the front end returns (expression-heavy generated modules with 1..8-byte UInt/Int/Bcd variables, parameters, flags, "
+       "constants at 2^8..2^32 edges, nested $max / ?: / products; semantic-generator modules; corpus) and evaluates it with an "
+       "independent big-int evaluator under corner (<= 64) and random environments over the declared physical ranges, shared "
+       "across occurrences and per field instance: min <= value <= max, value = remainder (mod modulus), constants exact, "
+       "$upper_bound/$lower_bound equal their argument's inferred bounds, every run-time function node and its operands fit one "
+       "64-bit type, and for expressions whose variables occur once under + - * $max the corner values attain both bounds "
+       "(tightness). The C++ consequence (no signed overflow) is C04's UBSan workload.",
+  note="Evaluator reads only operator names, constants and references of the IR (never the annotations); expressions containing "
+       "builtins such as $is_statically_sized are skipped and counted.",
+  technique="runtime invariant monitor on the IR at the process_ir boundary with an independent evaluator",
+  design_ref="5/C05"),
  "C02": dict(
   category="exploration",
   text="Direct runtime harness over the real headers: UIntView / IntView / BcdView over OffsetBitBlock<BitBlock<...>> for EVERY "
